@@ -138,9 +138,18 @@ def gen_system(rng, size=None):
         q = rng.choice(comps_avail)
         D = list(S.strands[q])
         name = rng.choice(['K', 'W', 'hp']) + str(i)
-        variant = rng.choice('ABC')
+        variant = rng.choice('ABCDEF')
         x, y = rng.choice(alld), rng.choice(alld)
-        if variant == 'A':
+        if variant == 'D':              # the same composite domain twice in one complex
+            names, sst, ktxt = D + [x] + D, '.' * (2 * len(D) + 1), '%s %s %s' % (q, x, q)
+        elif variant == 'E':            # ... once paired (with a strand break inside the loop) and once more unpaired
+            names = D + ['+'] + [comp(d) for d in reversed(D)] + [x] + D
+            sst = '(' * len(D) + '+' + ')' * len(D) + '.' * (len(D) + 1)
+            ktxt = '%s( + ) %s %s' % (q, x, q)
+        elif variant == 'F':            # ... and its complement twice
+            cd = [comp(d) for d in reversed(D)]
+            names, sst, ktxt = cd + [y] + cd, '.' * (2 * len(D) + 1), '%s* %s %s*' % (q, y, q)
+        elif variant == 'A':
             names, sst, ktxt = [x] + D + [y], '.' * (len(D) + 2), '%s %s %s' % (x, q, y)
         elif variant == 'B':
             inner = [rng.choice(alld) for _ in range(rng.randint(0, 2))]
